@@ -1,6 +1,6 @@
 (** Property C08 — the theorems the check counts as obligations.  Nothing but
     statements closed by [exact] and [Print Assumptions]. *)
-From HS Require Import Base.Prelude C08.Model C08.Policies C08.Pipeline.
+From HS Require Import Base.Prelude C08.Model C08.Policies C08.PolicyThms C08.Pipeline C08.IndModel C08.IndThms.
 Local Open Scope Z_scope.
 
 (** Conservation, every policy, every worker kind, EVERY schedule (any pending
@@ -36,3 +36,140 @@ Print Assumptions c08_no_discard_refuted.
 Theorem c08_no_stranding_refuted : ~ no_stranding_statement.
 Proof. exact no_stranding_refuted. Qed.
 Print Assumptions c08_no_stranding_refuted.
+
+(** PARTIAL no-stranding (every policy, both worker kinds, every schedule): when
+    only service completions are pending and an item waits, at least one item is
+    in service. With a single slot this is the full clause. *)
+Theorem c08_no_stranding_partial : forall k p limit ls w,
+  pol_wf p -> pol_len p = 0 -> 1 <= limit -> no_setlimit ls -> wrun (w0 k p limit) ls = Some w ->
+  quiescent w = true -> 0 < pol_len (q (ps w)) -> 1 <= act (ps w).
+Proof. exact no_stranding_partial. Qed.
+Print Assumptions c08_no_stranding_partial.
+
+Theorem c08_no_stranding_single_slot : forall p ls w,
+  pol_wf p -> pol_len p = 0 -> no_setlimit ls -> wrun (w0 WServer p 1) ls = Some w ->
+  quiescent w = true -> 0 < pol_len (q (ps w)) -> lim (ps w) <= act (ps w).
+Proof. exact no_stranding_single_slot. Qed.
+Print Assumptions c08_no_stranding_single_slot.
+
+(* ---------------- policies, over all push/pop sequences ---------------- *)
+
+(** enqueued = dequeued + dropped + held at all times (ledger of the observed run). *)
+Theorem c08_policy_conservation : forall ops s s' obs,
+  pol_run s ops = (s', obs) ->
+  n_accepted ops obs + pol_len s = n_popped ops obs + n_expired ops obs + pol_len s'.
+Proof. exact policy_conservation. Qed.
+Print Assumptions c08_policy_conservation.
+
+(** ... and the same equation for the statistics the policies keep themselves. *)
+Theorem c08_policy_stats_conservation : forall ops s s' obs,
+  stats_ok s -> pol_run s ops = (s', obs) -> stats_ok s'.
+Proof. exact policy_stats_conservation. Qed.
+Print Assumptions c08_policy_stats_conservation.
+
+(** A policy never holds more than its capacity (per-flow and flow-count limits for the fair queues). *)
+Theorem c08_policy_capacity : forall ops s s' obs,
+  within_cap s -> pol_run s ops = (s', obs) -> within_cap s'.
+Proof. exact policy_capacity. Qed.
+Print Assumptions c08_policy_capacity.
+
+Theorem c08_fair_capacity : forall m c fl total st,
+  within_cap (PFair (Some m) (Some c) fl total st) -> pol_wf (PFair (Some m) (Some c) fl total st) ->
+  total <= Z.max 0 m * Z.max 0 c.
+Proof. exact fair_capacity. Qed.
+Print Assumptions c08_fair_capacity.
+
+(** FIFO: the accepted items are exactly the popped items followed by the held ones, in order. *)
+Theorem c08_fifo_order : forall ops cap l s' obs,
+  pol_run (PFifo cap l) ops = (s', obs) ->
+  map iid l ++ accepted_ids ops obs = popped_ids ops obs ++ pol_ids s'.
+Proof. exact fifo_order. Qed.
+Print Assumptions c08_fifo_order.
+
+(** LIFO: every pop returns the most recently accepted item not yet popped. *)
+Theorem c08_lifo_order : forall ops cap l s' obs,
+  pol_run (PLifo cap l) ops = (s', obs) -> lifo_ok ops obs (map iid l).
+Proof. exact lifo_order. Qed.
+Print Assumptions c08_lifo_order.
+
+(** Stable priority. *)
+Theorem c08_priority_order : forall ops cap ctr h obs now it s2 ex,
+  pol_run (PPrio cap 0 []) ops = (PPrio cap ctr h, obs) ->
+  pol_pop now (PPrio cap ctr h) = (s2, Some it, ex) ->
+  exists o h', h = (iprio it, o, it) :: h' /\ s2 = PPrio cap ctr h' /\ ex = [] /\
+    Forall (fun e => iprio it < iprio (snd e) \/ (iprio it = iprio (snd e) /\ o < eord e)) h'.
+Proof. exact priority_order. Qed.
+Print Assumptions c08_priority_order.
+
+(** Deadline. *)
+Theorem c08_deadline_order : forall ops cap ctr h st obs now s2 r ex,
+  pol_run (PDead cap 0 [] ds0) ops = (PDead cap ctr h st, obs) ->
+  pol_pop now (PDead cap ctr h st) = (s2, r, ex) ->
+  Forall (fun it => idl it < now) ex /\
+  match r with
+  | Some it => now <= idl it /\
+      exists o h' st', s2 = PDead cap ctr h' st' /\
+        Forall (fun e => idl it < idl (snd e) \/ (idl it = idl (snd e) /\ o < eord e)) h'
+  | None => pol_len s2 = 0
+  end.
+Proof. exact deadline_order. Qed.
+Print Assumptions c08_deadline_order.
+
+(** Fair share (round robin over flows). *)
+Theorem c08_fair_round_robin : forall fl rm fl' it rm',
+  fair_pop fl rm = (fl', Some it, rm') ->
+  exists pre g l post,
+    fl = pre ++ (g, it :: l) :: post /\ Forall (fun p => snd p = []) pre /\
+    fl' = post ++ (match l with [] => [] | _ => [(g, l)] end).
+Proof. exact fair_round_robin. Qed.
+Print Assumptions c08_fair_round_robin.
+
+(** REFUTED for the unguarded workers (known finding C08-unguarded-over-dispatch). *)
+Theorem c08_unguarded_bound_refuted : ~ unguarded_bound_statement.
+Proof. exact unguarded_bound_refuted. Qed.
+Print Assumptions c08_unguarded_bound_refuted.
+
+(** REFUTED: raising the capacity does not poll the queue (known finding C08-strand-capacity-raised). *)
+Theorem c08_capacity_change_refuted : ~ capacity_change_statement.
+Proof. exact capacity_change_refuted. Qed.
+Print Assumptions c08_capacity_change_refuted.
+
+(* ---------------- industrial components ---------------- *)
+
+Theorem c08_pooled_conservation : forall size cap ls w x,
+  pcw_run (pcw0 size cap) ls = Some w -> NoDup (pc_arrivals ls) ->
+  (In x (pc_arrivals ls) -> pc_places w x = 1) /\ (~ In x (pc_arrivals ls) -> pc_places w x = 0).
+Proof. exact pooled_conservation. Qed.
+Print Assumptions c08_pooled_conservation.
+
+Theorem c08_pooled_bound_no_stranding : forall size cap ls w,
+  0 <= size -> pcw_run (pcw0 size cap) ls = Some w ->
+  pc_act (pw_s w) <= size /\ 0 <= pc_avail (pw_s w) /\
+  (zl_retry (pw_pend w) = 0 -> pc_q (pw_s w) <> [] -> pc_avail (pw_s w) = 0).
+Proof. exact pooled_bound_no_stranding. Qed.
+Print Assumptions c08_pooled_bound_no_stranding.
+
+(** REFUTED (known finding C08-pooled-retry-loses-slot). *)
+Theorem c08_pooled_fifo_refuted : ~ pooled_fifo_statement.
+Proof. exact pooled_fifo_refuted. Qed.
+Print Assumptions c08_pooled_fifo_refuted.
+
+Theorem c08_gate_fifo_conservation : forall cap opened ins s' outs rejs accs,
+  g_run (g0 cap opened) ins = (s', outs, rejs, accs) ->
+  outs ++ g_q s' = accs /\ (0 < cap -> zlen (g_q s') <= cap) /\ (g_open s' = true -> g_q s' = []).
+Proof. exact gate_fifo_conservation. Qed.
+Print Assumptions c08_gate_fifo_conservation.
+
+Theorem c08_conveyor_conservation_bound : forall cap ins w x,
+  cvw_run (cvw0 cap) ins = Some w -> NoDup (cv_arrivals ins) ->
+  ((In x (cv_arrivals ins) -> cv_places w x = 1) /\ (~ In x (cv_arrivals ins) -> cv_places w x = 0)) /\
+  cv_transit (vw_s w) = zlen (vw_pend w) /\ (0 < cap -> cv_transit (vw_s w) <= cap).
+Proof. exact conveyor_conservation_bound. Qed.
+Print Assumptions c08_conveyor_conservation_bound.
+
+Theorem c08_batch_conservation_no_full_wait : forall size ton ins w x,
+  bw_run (bw0 size ton) ins = Some w -> NoDup (b_arrivals ins) ->
+  ((In x (b_arrivals ins) -> b_places w x = 1) /\ (~ In x (b_arrivals ins) -> b_places w x = 0)) /\
+  (1 <= size -> zlen (b_buf (bw_s w)) < size).
+Proof. exact batch_conservation_no_full_wait. Qed.
+Print Assumptions c08_batch_conservation_no_full_wait.
